@@ -325,6 +325,7 @@ theorem invA_runCallback (c : Cfg) (s : St) (x : Cid) (v : Val) (h : InvA s) : I
   · exact invA_writeVal c s x v none h
   · exact invA_writeVal c s x _ none h
   · exact invA_writeVal c s _ _ none h
+  · exact h
 
 theorem invA_clientUpdate (c : Cfg) (s : St) (x : Cid) (v : Val) (sd : Option Addr) (h : InvA s) :
     InvA (clientUpdate c s x v sd) := by
@@ -353,7 +354,11 @@ theorem invA_putChars (c : Cfg) (s : St) (p : ObjId) (x : Cid) (ev : Option Bool
   simp only [putChars]
   split
   · exact invA_putSub _ _ _ _ _ h
-  · exact invA_putVal _ _ _ _ _ (invA_putSub _ _ _ _ _ h)
+  · split
+    · simp only [failVal]; split
+      · exact invA_putSub _ _ _ _ _ h
+      · exact invA_setValue _ _ (invA_putSub _ _ _ _ _ h)
+    · exact invA_putVal _ _ _ _ _ (invA_putSub _ _ _ _ _ h)
 
 theorem invA_setPrepared (s : St) (f : Addr → Option (List Pid)) (h : InvA s) : InvA { s with prepared := f } := by
   obtain ⟨h1, h2, h3, h4, h5, h6⟩ := h
@@ -386,10 +391,10 @@ theorem invA_putAll (c : Cfg) (s : St) (p : ObjId) (qs : List (Cid × Option Boo
 theorem invA_onPutMany (c : Cfg) (hc : c.fix13 = true) (s : St) (p : ObjId) (qs cl) (h : InvA s) :
     InvA (onPutMany c s p qs cl).1 := by
   simp only [onPutMany]
-  have hr : InvA (if (s.obj p).verified then respond (putAll c s p qs) p 204 Body.none
+  have hr : InvA (if (s.obj p).verified then respond (putAll c s p qs) p (putCode c qs) (putBody c qs)
            else respond s p 401 Body.none).1 := by
     split
-    · exact invA_respond _ p 204 Body.none (invA_putAll c s p qs h)
+    · exact invA_respond _ p _ _ (invA_putAll c s p qs h)
     · exact invA_respond _ p 401 Body.none h
   split
   · exact invA_closeP c hc _ _ hr
@@ -398,10 +403,10 @@ theorem invA_onPutMany (c : Cfg) (hc : c.fix13 = true) (s : St) (p : ObjId) (qs 
 theorem invA_onPut (c : Cfg) (hc : c.fix13 = true) (s : St) (p : ObjId) (x ev val cl) (h : InvA s) :
     InvA (onPut c s p x ev val cl).1 := by
   simp only [onPut]
-  have hr : InvA (if (s.obj p).verified then respond (putChars c s p x ev val) p 204 Body.none
+  have hr : InvA (if (s.obj p).verified then respond (putChars c s p x ev val) p (putCode c [(x, ev, val)]) (putBody c [(x, ev, val)])
            else respond s p 401 Body.none).1 := by
     split
-    · exact invA_respond _ p 204 Body.none (invA_putChars c s p x ev val h)
+    · exact invA_respond _ p _ _ (invA_putChars c s p x ev val h)
     · exact invA_respond _ p 401 Body.none h
   split
   · exact invA_closeP c hc _ _ hr
@@ -464,7 +469,9 @@ theorem invA_step (c : Cfg) (hc : c.fix13 = true) (s : St) (e : Ev) (h : InvA s)
     simp only [step, handOff]
     split
     · exact h0
-    · exact invA_publish c _ _ _ none ⟨h1, h2, h3, h4, h5, h6⟩
+    · split
+      · exact ⟨h1, h2, h3, h4, h5, h6⟩
+      · exact invA_publish c _ _ _ none ⟨h1, h2, h3, h4, h5, h6⟩
   | timerFire p =>
     simp only [step]; split
     · exact invA_sendEvents s p h0
@@ -679,6 +686,7 @@ theorem rel_runCallback (c : Cfg) (s : St) (x : Cid) (v : Val) : Rel none s (run
   · exact rel_writeVal c s x v none
   · exact rel_writeVal c s x _ none
   · exact rel_writeVal c s _ _ none
+  · exact Rel.refl _ _
 
 theorem rel_clientUpdate (c : Cfg) (s : St) (x : Cid) (v : Val) (sd : Option Addr) : Rel none s (clientUpdate c s x v sd) := by
   simp only [clientUpdate]
@@ -707,7 +715,11 @@ theorem rel_putChars (c : Cfg) (s : St) (p : ObjId) (x : Cid) (ev : Option Bool)
   simp only [putChars]
   split
   · exact rel_putSub c s p x ev
-  · exact Rel.trans (rel_putSub c s p x ev) (Rel.weaken (rel_putVal c _ p x _))
+  · split
+    · simp only [failVal]; split
+      · exact rel_putSub c s p x ev
+      · exact Rel.trans (rel_putSub c s p x ev) (Rel.weaken (rel_setValue _ _))
+    · exact Rel.trans (rel_putSub c s p x ev) (Rel.weaken (rel_putVal c _ p x _))
 
 /-- the address a request on `p` may add subscriptions / prepared writes for: its own, and only
     when it holds a verified session -/
@@ -715,7 +727,7 @@ def vtgt (s : St) (p : ObjId) : Option Addr := if (s.obj p).verified then some (
 
 theorem rel_onPut (c : Cfg) (s : St) (p : ObjId) (x ev val cl) : Rel (vtgt s p) s (onPut c s p x ev val cl).1 := by
   simp only [onPut]
-  have hr : Rel (vtgt s p) s (if (s.obj p).verified then respond (putChars c s p x ev val) p 204 Body.none
+  have hr : Rel (vtgt s p) s (if (s.obj p).verified then respond (putChars c s p x ev val) p (putCode c [(x, ev, val)]) (putBody c [(x, ev, val)])
            else respond s p 401 Body.none).1 := by
     split
     · rename_i hv; simp only [vtgt, hv, if_true]
@@ -736,7 +748,7 @@ theorem rel_putAll (c : Cfg) (s : St) (p : ObjId) (qs : List (Cid × Option Bool
 
 theorem rel_onPutMany (c : Cfg) (s : St) (p : ObjId) (qs cl) : Rel (vtgt s p) s (onPutMany c s p qs cl).1 := by
   simp only [onPutMany]
-  have hr : Rel (vtgt s p) s (if (s.obj p).verified then respond (putAll c s p qs) p 204 Body.none
+  have hr : Rel (vtgt s p) s (if (s.obj p).verified then respond (putAll c s p qs) p (putCode c qs) (putBody c qs)
            else respond s p 401 Body.none).1 := by
     split
     · rename_i hv; simp only [vtgt, hv, if_true]
@@ -810,7 +822,9 @@ theorem rel_step (c : Cfg) (s : St) (e : Ev) (h1 : ∀ a, e ≠ Ev.connect a) (h
     · rename_i x v rest _
       have h0 : Rel none s { s with handoffs := rest } :=
         ⟨rfl, rfl, fun _ => rfl, fun _ => rfl, fun _ h => h, fun _ => Or.inl rfl, fun _ h => h, fun _ _ _ h => h, fun _ _ h => h⟩
-      exact Rel.trans h0 (rel_publish c _ x v none)
+      split
+      · exact h0
+      · exact Rel.trans h0 (rel_publish c _ x v none)
   | timerFire p =>
     simp only [step]; split
     · exact rel_sendEvents s p
@@ -1127,7 +1141,7 @@ theorem writesOnly_onReq (c : Cfg) (s : St) (q : ObjId) (r : Req) : writesOnly q
     · exact writesOnly_closeP c s q
     · rename_i x ev val cl
       simp only [onPut]
-      have hr : writesOnly q (if (s.obj q).verified then respond (putChars c s q x ev val) q 204 Body.none
+      have hr : writesOnly q (if (s.obj q).verified then respond (putChars c s q x ev val) q (putCode c [(x, ev, val)]) (putBody c [(x, ev, val)])
            else respond s q 401 Body.none).2 := by
         split <;> exact writesOnly_respond _ _ _ _
       split
@@ -1135,7 +1149,7 @@ theorem writesOnly_onReq (c : Cfg) (s : St) (q : ObjId) (r : Req) : writesOnly q
       · exact hr
     · rename_i qs cl
       simp only [onPutMany]
-      have hr : writesOnly q (if (s.obj q).verified then respond (putAll c s q qs) q 204 Body.none
+      have hr : writesOnly q (if (s.obj q).verified then respond (putAll c s q qs) q (putCode c qs) (putBody c qs)
            else respond s q 401 Body.none).2 := by
         split <;> exact writesOnly_respond _ _ _ _
       split
@@ -1544,6 +1558,7 @@ theorem invQ_clientUpdate (c : Cfg) (s : St) (x : Cid) (v : Val) (sd : Option Ad
     · exact invQ_writeVal c _ x v none h1
     · exact invQ_writeVal c _ x _ none h1
     · exact invQ_writeVal c _ _ _ none h1
+    · exact h1
   have h3 : InvQ c (match (runCallback c (setVal s x v) x v).value x with
     | some u => if (runCallback c (setVal s x v) x v).value x ≠ s.value x then publish c (runCallback c (setVal s x v) x v) x u sd
                 else runCallback c (setVal s x v) x v
@@ -1575,9 +1590,13 @@ theorem invQ_putChars (c : Cfg) (s : St) (p : ObjId) (x : Cid) (ev : Option Bool
   split
   · exact h1
   · rename_i v
-    simp only [putVal]
-    have h5 := invQ_discardStale c _ ((putSub c s p x ev).obj p).addr x (invQ_clientUpdate c (putSub c s p x ev) x v (some ((putSub c s p x ev).obj p).addr) h1)
-    exact invQ_updObj c _ p _ h5 (qok_same c _ _ (h5 p) rfl rfl rfl (Nat.le_refl _))
+    split
+    · simp only [failVal]; split
+      · exact h1
+      · exact h1
+    · simp only [putVal]
+      have h5 := invQ_discardStale c _ ((putSub c s p x ev).obj p).addr x (invQ_clientUpdate c (putSub c s p x ev) x v (some ((putSub c s p x ev).obj p).addr) h1)
+      exact invQ_updObj c _ p _ h5 (qok_same c _ _ (h5 p) rfl rfl rfl (Nat.le_refl _))
 
 theorem invQ_onReq (c : Cfg) (s : St) (p : ObjId) (r : Req) (h : InvQ c s) : InvQ c (onReq c s p r).1 := by
   simp only [onReq]
@@ -1588,7 +1607,7 @@ theorem invQ_onReq (c : Cfg) (s : St) (p : ObjId) (r : Req) (h : InvQ c s) : Inv
     · exact invQ_closeP c s p h
     · rename_i x ev val cl
       simp only [onPut]
-      have hr : InvQ c (if (s.obj p).verified then respond (putChars c s p x ev val) p 204 Body.none
+      have hr : InvQ c (if (s.obj p).verified then respond (putChars c s p x ev val) p (putCode c [(x, ev, val)]) (putBody c [(x, ev, val)])
            else respond s p 401 Body.none).1 := by
         split
         · exact invQ_respond c _ p _ _ (invQ_putChars c s p x ev val h)
@@ -1598,7 +1617,7 @@ theorem invQ_onReq (c : Cfg) (s : St) (p : ObjId) (r : Req) (h : InvQ c s) : Inv
       · exact hr
     · rename_i qs cl
       simp only [onPutMany]
-      have hr : InvQ c (if (s.obj p).verified then respond (putAll c s p qs) p 204 Body.none
+      have hr : InvQ c (if (s.obj p).verified then respond (putAll c s p qs) p (putCode c qs) (putBody c qs)
            else respond s p 401 Body.none).1 := by
         split
         · exact invQ_respond c _ p _ _
@@ -1639,7 +1658,9 @@ theorem invQ_step (c : Cfg) (s : St) (e : Ev) (h : InvQ c s) : InvQ c (step c s 
     simp only [step, handOff]
     split
     · exact h
-    · exact invQ_publish c _ _ _ none h
+    · split
+      · exact h
+      · exact invQ_publish c _ _ _ none h
   | timerFire p =>
     simp only [step]; split
     · exact invQ_sendEvents c s p h
@@ -1777,7 +1798,7 @@ theorem noEvent_onReq (c : Cfg) (s : St) (q : ObjId) (r : Req) : noEvent (onReq 
     · exact noEvent_closeOuts _ _
     · rename_i x ev val cl
       simp only [onPut]
-      have hr : noEvent (if (s.obj q).verified then respond (putChars c s q x ev val) q 204 Body.none
+      have hr : noEvent (if (s.obj q).verified then respond (putChars c s q x ev val) q (putCode c [(x, ev, val)]) (putBody c [(x, ev, val)])
            else respond s q 401 Body.none).2 := by
         split <;> exact noEvent_respond _ _ _ _
       split
@@ -1785,7 +1806,7 @@ theorem noEvent_onReq (c : Cfg) (s : St) (q : ObjId) (r : Req) : noEvent (onReq 
       · exact hr
     · rename_i qs cl
       simp only [onPutMany]
-      have hr : noEvent (if (s.obj q).verified then respond (putAll c s q qs) q 204 Body.none
+      have hr : noEvent (if (s.obj q).verified then respond (putAll c s q qs) q (putCode c qs) (putBody c qs)
            else respond s q 401 Body.none).2 := by
         split <;> exact noEvent_respond _ _ _ _
       split
